@@ -137,8 +137,8 @@ ScActs == {a \in
           \* the second chain id only registers and quits (independence of chain ids), owner o2
           : Full2 \/ a.id = 1 \/ (a.t \in (IF Rich THEN {"screg", "scquit"} ELSE {"screg"}) /\ a.own = "o2" /\ a.ver \in {"a", ""})
                      \/ a.m \in (IF Rich THEN {M_SCREG, M_SCQUIT} ELSE {M_SCREG})}
-\* C35: partial and interleaved approval rounds of the two request kinds of chain 1 (single approvals by v1 v2 v3)
-C35Aps == {AId("ap", m, 1, by) : m \in {M_SCUPD, M_SCQUIT}, by \in {"v1", "v2", "v3"}}
+\* C35: partial and interleaved approval rounds of the two request kinds of chain 1 (single approvals: update by v1 v2, quit by v2 v3; the large two-chain cfg leaves them out)
+C35Aps == {AId("ap", M_SCUPD, 1, by) : by \in {"v1", "v2"}} \cup {AId("ap", M_SCQUIT, 1, by) : by \in {"v2", "v3"}}
 C32ScActs == {a \in ScActs : (a.id = 1 /\ a.own # "o2") \/ (Rich /\ a.id = 2 /\ ((a.t = "screg" /\ a.own = "o1") \/ a.m = M_SCREG))}
 
 Ids == 0..(MaxId - 1)
@@ -152,7 +152,7 @@ Alphabet(s) ==
     (CASE s.area = "node" -> NodeActs
        [] s.area = "nodeA" -> NodeA
        [] s.area = "nodeB" -> NodeB
-       [] s.area = "sc" -> IF Mode = "C32" THEN C32ScActs ELSE IF Mode = "C35" THEN ScActs \cup C35Aps ELSE ScActs
+       [] s.area = "sc" -> IF Mode = "C32" THEN C32ScActs ELSE IF Mode = "C35" /\ ~Full2 THEN ScActs \cup C35Aps ELSE ScActs
        [] s.area = "rel" -> RelActs
        [] s.area = "sv" -> SvActs)
     \cup (IF Mode = "C32" /\ (Rich \/ s.area = "sv") THEN EpochActs ELSE {})   \* quick: the epoch change is explored in area sv
